@@ -982,7 +982,9 @@ pub enum Q {
     Term { f: TF, w: u8, opt: u8 },
     TypedTerm { ty: usize, var: usize, v: Val },
     Phrase { terms: Vec<(usize, u8)>, slop: u32 },
-    PhrasePrefix { terms: Vec<u8>, prefix: String, mask: u64 },
+    /// `terms`: (offset, word) of the complete terms, `poff`: offset of the prefix (larger than
+    /// every term offset); offsets need neither start at 0 nor be contiguous
+    PhrasePrefix { terms: Vec<(usize, u8)>, poff: usize, prefix: String, mask: u64 },
     RangeText { f: TF, lo: Bound<String>, hi: Bound<String>, api: u8, mask: u64 },
     RangeTyped { ty: usize, var: usize, lo: Bound<Val>, hi: Bound<Val>, api: u8 },
     TermSet { text: Vec<(TF, u8)>, typed: Vec<(usize, usize, Val)> },
@@ -997,6 +999,11 @@ pub enum Q {
     Const(Box<Q>, f32),
     DisMax(Vec<Q>, f32),
     Bool { clauses: Vec<(Oc, Q)>, msm: Option<usize> },
+}
+
+/// the offsets of a phrase-prefix query are not simply 0, 1, 2, ...
+fn pp_gap(terms: &[(usize, u8)], poff: usize) -> bool {
+    terms.iter().enumerate().any(|(i, t)| t.0 != i) || poff != terms.len()
 }
 
 fn opt_of(o: u8) -> IndexRecordOption {
@@ -1026,13 +1033,18 @@ impl Q {
                     .collect();
                 Box::new(PhraseQuery::new_with_offset_and_slop(ts, *slop))
             }
-            Q::PhrasePrefix { terms, prefix, .. } => {
-                let mut ts: Vec<Term> = terms
+            Q::PhrasePrefix { terms, poff, prefix, .. } => {
+                let mut ts: Vec<(usize, Term)> = terms
                     .iter()
-                    .map(|w| Term::from_field_text(fs.body, BODY[*w as usize]))
+                    .map(|(o, w)| (*o, Term::from_field_text(fs.body, BODY[*w as usize])))
                     .collect();
-                ts.push(Term::from_field_text(fs.body, prefix));
-                Box::new(PhrasePrefixQuery::new(ts))
+                ts.push((*poff, Term::from_field_text(fs.body, prefix)));
+                if ts.iter().enumerate().all(|(i, t)| t.0 == i) {
+                    // the plain constructor where it says the same
+                    Box::new(PhrasePrefixQuery::new(ts.into_iter().map(|t| t.1).collect()))
+                } else {
+                    Box::new(PhrasePrefixQuery::new_with_offset(ts))
+                }
             }
             Q::RangeText { f, lo, hi, api, .. } => {
                 let field = fs.text(*f);
@@ -1126,7 +1138,11 @@ impl Q {
                 let gap = terms.iter().enumerate().any(|(i, t)| t.0 != i);
                 format!("phrase{}{}{}", terms.len(), if *slop > 0 { "~" } else { "" }, if gap { "g" } else { "" })
             }
-            Q::PhrasePrefix { terms, .. } => format!("pprefix{}", terms.len() + 1),
+            Q::PhrasePrefix { terms, poff, .. } => format!(
+                "pprefix{}{}",
+                terms.len() + 1,
+                if pp_gap(terms, *poff) { "g" } else { "" }
+            ),
             Q::RangeText { f, lo, hi, api, .. } => {
                 format!("range:{}:{}{}:{}", f.name(), bound_kind(lo), bound_kind(hi), api)
             }
@@ -1189,8 +1205,20 @@ impl Q {
             Q::Empty => "empty".into(),
             Q::Term { f, .. } => format!("term:{}", f.name()),
             Q::TypedTerm { ty, var, .. } => format!("term:{}", typed_name(*ty, *var)),
-            Q::Phrase { slop, .. } => if *slop > 0 { "phrase-slop".into() } else { "phrase".into() },
-            Q::PhrasePrefix { terms, .. } => if terms.is_empty() { "phrase-prefix-single".into() } else { "phrase-prefix".into() },
+            Q::Phrase { terms, slop } => {
+                if *slop > 0 {
+                    "phrase-slop".into()
+                } else if terms.windows(2).any(|w| w[1].0 != w[0].0 + 1) {
+                    "phrase-gap".into()
+                } else {
+                    "phrase".into()
+                }
+            }
+            Q::PhrasePrefix { terms, poff, .. } => format!(
+                "phrase-prefix{}{}",
+                if terms.is_empty() { "-single" } else { "" },
+                if pp_gap(terms, *poff) { "-gap" } else { "" }
+            ),
             Q::RangeText { f, api, .. } => format!("range:{}:api{}", f.name(), api),
             Q::RangeTyped { ty, var, api, .. } => format!("range:{}:api{}", typed_name(*ty, *var), api),
             Q::TermSet { .. } => "termset".into(),
@@ -1247,8 +1275,8 @@ impl Q {
             Q::TypedTerm { ty, var, v } => json!({"Term": {"field": typed_name(*ty, *var), "value": v.json()}}),
             Q::Phrase { terms, slop } => json!({"Phrase": {"field": "body", "slop": slop,
                 "terms": terms.iter().map(|(o, w)| json!([o, BODY[*w as usize]])).collect::<Vec<_>>()}}),
-            Q::PhrasePrefix { terms, prefix, .. } => json!({"PhrasePrefix": {"field": "body",
-                "terms": terms.iter().map(|w| BODY[*w as usize]).collect::<Vec<_>>(), "prefix": prefix}}),
+            Q::PhrasePrefix { terms, poff, prefix, .. } => json!({"PhrasePrefix": {"field": "body",
+                "terms": terms.iter().map(|(o, w)| json!([o, BODY[*w as usize]])).collect::<Vec<_>>(), "prefix": [poff, prefix]}}),
             Q::RangeText { f, lo, hi, api, .. } => json!({"Range": {"field": f.name(), "api": api,
                 "lower": bound_json(lo, |s| json!(s)), "upper": bound_json(hi, |s| json!(s))}}),
             Q::RangeTyped { ty, var, lo, hi, api } => json!({"Range": {"field": typed_name(*ty, *var), "api": api,
@@ -1303,8 +1331,17 @@ impl Q {
         match self {
             Q::RangeText { f, .. } => format!("range:{}:{}", f.name(), self.range_path().unwrap()),
             Q::RangeTyped { ty, var, .. } => format!("range:{}:{}", typed_name(*ty, *var), self.range_path().unwrap()),
-            Q::Phrase { terms, slop } => format!("phrase{}{}", if terms.len() >= 3 { "-3+terms" } else { "-2terms" }, if *slop > 0 { "-slop" } else { "" }),
-            Q::PhrasePrefix { terms, .. } => format!("phrase-prefix{}", if terms.is_empty() { "-single" } else { "" }),
+            Q::Phrase { terms, slop } => format!(
+                "phrase{}{}{}",
+                if terms.len() >= 3 { "-3+terms" } else { "-2terms" },
+                if *slop > 0 { "-slop" } else { "" },
+                if terms.windows(2).any(|w| w[1].0 != w[0].0 + 1) { "-gap" } else { "" }
+            ),
+            Q::PhrasePrefix { terms, poff, .. } => format!(
+                "phrase-prefix{}{}",
+                if terms.is_empty() { "-single" } else if terms.len() >= 2 { "-3+terms" } else { "" },
+                if pp_gap(terms, *poff) { "-gap" } else { "" }
+            ),
             Q::TermSet { .. } => "termset".into(),
             Q::Boost(..) => "boost".into(),
             Q::Const(..) => "const".into(),
@@ -1403,16 +1440,19 @@ fn eval_at(q: &Q, d: &MDoc, mode: Mode, top: bool) -> Tri {
         Q::Term { f, w, .. } => tri(d.mask(*f) & (1u64 << w) != 0),
         Q::TypedTerm { ty, v, .. } => tri(d.vals[*ty].iter().any(|x| x == v)),
         Q::Phrase { terms, slop } => eval_phrase(terms, *slop, d),
-        Q::PhrasePrefix { terms, mask, .. } => {
+        Q::PhrasePrefix { terms, poff, mask, .. } => {
             if terms.is_empty() {
                 return tri(d.body_mask & mask != 0);
             }
-            let n = terms.len() as u32;
-            let has = |w: u8, p: u32| d.body_pos.iter().any(|&(w2, p2)| w2 == w && p2 == p);
+            // a token sequence start s such that every term sits at s + its offset and a word
+            // with the prefix sits at s + the prefix offset (offsets relative to the first term)
+            let o0 = terms[0].0 as i64;
+            let has = |w: u8, p: i64| d.body_pos.iter().any(|&(w2, p2)| w2 == w && p2 as i64 == p);
             let ok = d.body_pos.iter().any(|&(w0, p0)| {
-                w0 == terms[0]
-                    && terms.iter().enumerate().all(|(i, &w)| has(w, p0 + i as u32))
-                    && d.body_pos.iter().any(|&(w2, p2)| p2 == p0 + n && mask & (1u64 << w2) != 0)
+                let base = p0 as i64 - o0;
+                w0 == terms[0].1
+                    && terms.iter().all(|&(o, w)| has(w, base + o as i64))
+                    && d.body_pos.iter().any(|&(w2, p2)| p2 as i64 == base + *poff as i64 && mask & (1u64 << w2) != 0)
             });
             tri(ok)
         }
@@ -1565,6 +1605,48 @@ impl<'a> QGen<'a> {
         }
     }
 
+    /// `n` (offset, word) pairs with strictly increasing offsets that are not all contiguous:
+    /// mostly the words found at increasing positions of one document (skipping up to two tokens,
+    /// or stepping over the position gap between two values), so that the sequence occurs;
+    /// otherwise `fallback` words at random offsets. Offsets start at 0 or, sometimes, later.
+    fn gapped_sequence(&self, rng: &mut Rng, n: usize, fallback: &[u8]) -> (Vec<(usize, u8)>, bool) {
+        let base = if rng.chance(1, 4) { rng.urange(1, 3) } else { 0 };
+        if rng.chance(3, 4) {
+            for _ in 0..20 {
+                let d = rng.pick(&self.corpus.docs);
+                if d.body_pos.len() < n || n == 0 {
+                    continue;
+                }
+                let mut idx = rng.usize_below(d.body_pos.len());
+                let mut picked = vec![d.body_pos[idx]];
+                while picked.len() < n {
+                    idx += 1 + *rng.pick(&[0usize, 0, 1, 1, 2]);
+                    if idx >= d.body_pos.len() {
+                        break;
+                    }
+                    picked.push(d.body_pos[idx]);
+                }
+                if picked.len() < n {
+                    continue;
+                }
+                let p0 = picked[0].1;
+                let seq: Vec<(usize, u8)> = picked.iter().map(|&(w, p)| (base + (p - p0) as usize, w)).collect();
+                if n >= 2 && seq.windows(2).all(|w| w[1].0 == w[0].0 + 1) {
+                    continue;
+                }
+                return (seq, true);
+            }
+        }
+        let mut off = base;
+        let mut seq = vec![];
+        for i in 0..n {
+            let w = fallback.get(i).copied().unwrap_or_else(|| self.body_word(rng));
+            seq.push((off, w));
+            off += 1 + *rng.pick(&[0usize, 1, 1, 2]);
+        }
+        (seq, false)
+    }
+
     fn word_of(&self, f: TF, rng: &mut Rng) -> u8 {
         match f {
             TF::Body => self.body_word(rng),
@@ -1686,12 +1768,13 @@ impl<'a> QGen<'a> {
                         }
                     }
                 }
-                let gap = slop == 0 && rng.chance(1, 6);
-                let terms: Vec<(usize, u8)> = ws
-                    .iter()
-                    .enumerate()
-                    .map(|(i, &w)| (if gap && i + 1 == ws.len() { i + 1 } else { i }, w))
-                    .collect();
+                if slop == 0 && rng.chance(1, 4) {
+                    // position gaps (the analyzer removed a token): offsets through the offset
+                    // constructor, taken from a document so that the phrase can match
+                    let (seq, _) = self.gapped_sequence(rng, ws.len(), &ws);
+                    return Q::Phrase { terms: seq, slop };
+                }
+                let terms: Vec<(usize, u8)> = ws.iter().enumerate().map(|(i, &w)| (i, w)).collect();
                 Q::Phrase { terms, slop }
             }
             3 => {
@@ -1720,8 +1803,21 @@ impl<'a> QGen<'a> {
                     let k = rng.urange(1, w.len());
                     prefix = w[..k].to_string();
                 }
+                if rng.chance(1, 3) {
+                    // position gaps between the terms and / or between the last term and the
+                    // prefix, taken from a document so that the query can match
+                    let mut fallback = ws.clone();
+                    fallback.push(self.body_word(rng));
+                    let (mut seq, _) = self.gapped_sequence(rng, n + 1, &fallback);
+                    let (poff, last) = seq.pop().expect("n + 1 >= 1 entries");
+                    let last = BODY[last as usize];
+                    let prefix = last[..rng.urange(1, last.len())].to_string();
+                    let mask = vocab_mask(BODY, |w| w.starts_with(&prefix));
+                    return Q::PhrasePrefix { terms: seq, poff, prefix, mask };
+                }
                 let mask = vocab_mask(BODY, |w| w.starts_with(&prefix));
-                Q::PhrasePrefix { terms: ws, prefix, mask }
+                let poff = ws.len();
+                Q::PhrasePrefix { terms: ws.into_iter().enumerate().collect(), poff, prefix, mask }
             }
             4 => {
                 let f = *rng.pick(&[TF::Body, TF::Tag, TF::Tag, TF::Basic]);
@@ -1899,7 +1995,33 @@ impl<'a> QGen<'a> {
             clauses: vec![(Oc::Should, g.sparse_leaf(rng)), (Oc::Should, g.sparse_leaf(rng))],
             msm: if rng.bool() { None } else { Some(1) },
         };
-        match rng.below(10) {
+        match rng.below(12) {
+            10 | 11 => {
+                // Nothing but term queries read with frequencies, as the top-level boolean query:
+                // the term-intersection / term-union specialisations, which a ranking by score
+                // evaluates block-wise with score upper bounds (block-max WAND) while counting and
+                // collecting use the plain scorers. The terms are ones whose posting lists end
+                // exactly at / one past a 128-posting block, or span several blocks.
+                let n = rng.urange(2, 4);
+                let mut seen = BTreeSet::new();
+                let mut legs: Vec<Q> = vec![];
+                while legs.len() < n {
+                    let (f, w) = match rng.below(8) {
+                        0 => (TF::Freq, rng.below(7) as u8),
+                        1 | 2 | 3 => (TF::Body, *rng.pick(&[W_HALF, W_BIG, W_127, W_128, W_129, W_128, W_HALF])),
+                        _ => (TF::Body, rng.urange(N_MARK, BODY.len() - 1) as u8),
+                    };
+                    if seen.insert((f, w)) {
+                        legs.push(Q::Term { f, w, opt: if f == TF::Freq { 1 } else { 1 + rng.below(2) as u8 } });
+                    }
+                }
+                match rng.below(5) {
+                    0 | 1 | 2 => Q::Bool { clauses: legs.into_iter().map(|q| (Oc::Must, q)).collect(), msm: None },
+                    // every should clause required: promoted to an intersection
+                    3 => Q::Bool { clauses: legs.into_iter().map(|q| (Oc::Should, q)).collect(), msm: Some(n) },
+                    _ => Q::Bool { clauses: legs.into_iter().map(|q| (Oc::Should, q)).collect(), msm: None },
+                }
+            }
             8 | 9 => {
                 // +sparse +(phrase-of-frequent-words | y)   /   +sparse -(phrase | y):
                 // far jumps of the driver make the union answer seek_danger outside its window
@@ -1914,7 +2036,7 @@ impl<'a> QGen<'a> {
                     let w = BODY[b as usize];
                     let prefix = w[..rng.urange(1, w.len())].to_string();
                     let mask = vocab_mask(BODY, |x| x.starts_with(&prefix));
-                    Q::PhrasePrefix { terms: vec![a], prefix, mask }
+                    Q::PhrasePrefix { terms: vec![(0, a)], poff: 1, prefix, mask }
                 } else {
                     Q::Phrase { terms: vec![(0, a), (1, b)], slop: 0 }
                 };
